@@ -436,6 +436,8 @@ def c_dask_active(rng):
                 'cx-everything': lambda d: d.cx[big[0]:big[2], big[1]:big[3]],
                 'row-filter': lambda d: d[d['v'] >= 1],
                 'column-subset': lambda d: d[['shape', 'v']],
+                'sort': lambda d: d.sort_values('v', ascending=False),
+                'copy': lambda d: d.copy(),
             }
             nm = rng.choice(sorted(ops))
             r = ops[nm](ddf)
